@@ -328,6 +328,16 @@ def _p_is_pseudo_unitary(ctx, r, rng):
     rot[0, p], rot[p, 0] = -s, s
     ask(ctx, "is_pseudo_unitary", (rot, p, q), False, "neg-rotation-mixing-signature", d, False)
     ask(ctx, "is_pseudo_unitary", (blk, p + 1, q), False, "neg-wrong-signature-size", d, cplx)
+    # signatures with an explicit zero: J = 1 (p = d, q = 0) and J = -1 (p = 0, q = d) make "pseudo-unitary" mean unitary; a zero together with a
+    # signature shorter than the matrix is a size mismatch whatever the matrix (a zero must not be read as "not given")
+    u = gen.haar(rng, d, real=not cplx)
+    ask(ctx, "is_pseudo_unitary", (u, d, 0), True, "pos-unitary-q=0", d, cplx)
+    ask(ctx, "is_pseudo_unitary", (u, 0, d), True, "pos-unitary-p=0", d, cplx)
+    ask(ctx, "is_pseudo_unitary", ((1 + delta) * u, d, 0), False, "neg-scaled-unitary-q=0", d, cplx)
+    ask(ctx, "is_pseudo_unitary", (boost, d, 0), False, "neg-boost-with-trivial-signature", d, False)
+    for m_, cls_ in ((blk, "block"), (boost, "boost"), (blk @ boost, "product")):
+        ask(ctx, "is_pseudo_unitary", (m_, p, 0), False, f"neg-{cls_}-q=0-short-signature", d, cplx)
+        ask(ctx, "is_pseudo_unitary", (m_, 0, q), False, f"neg-{cls_}-p=0-short-signature", d, cplx)
 
 
 def _p_is_pseudo_hermitian(ctx, r, rng):
